@@ -1267,6 +1267,11 @@ fn gen_statements() -> Vec<Case> {
     for (bi, b) in bodies.iter().enumerate() {
         add(&format!("for (int i = 0; i < (n & 7); i++) {b}"), &format!("for-decl|b{bi}"));
         add(&format!("for (int i = 0, j = 8; i < j; i += 3, j--) {{ r += i * j; {b} }}"), &format!("for-two-decls|b{bi}"));
+        // three and four declarators whose initialisers have an observable order (side effects on r, uses of earlier ones)
+        add(&format!("for (int i = 0, j = (r += 3), k = (r *= 2); i < 2; i++) {{ r += j + k * 3; {b} }}"), &format!("for-three-decls-effects|b{bi}"));
+        add(&format!("for (int i = 0, j = (r += 3), k = (r *= 2), m = (r -= 1); i < 2; i++) {{ r += j + k * 3 + m * 7; {b} }}"), &format!("for-four-decls-effects|b{bi}"));
+        add(&format!("for (int i = 0, j = i + 5, k = j * 2, m = k - i; i < 2; i++) {{ r += j + k * 3 + m * 7; {b} }}"), &format!("for-four-decls-dependent|b{bi}"));
+        add(&format!("int j = (r += 3), k = (r *= 2), m = (r -= 1), q = j + k * 3 + m * 7; r += q; {b}"), &format!("four-decls-effects|b{bi}"));
         add(&format!("int i; for (i = 0; i < (n & 7); ++i) {{ {b} }} r += i;"), &format!("for-expr-init|b{bi}"));
         add(&format!("int i = 0; for (; i < (n & 7);) {{ {b} i++; }}"), &format!("for-empty-init-inc|b{bi}"));
         add(&format!("int i = 0; for (;;) {{ if (i >= (n & 7)) break; {b} i++; }}"), &format!("for-ever-break|b{bi}"));
